@@ -55,34 +55,68 @@ def _resolve_helper(model: Model, fi: FuncInfo, call: ast.Call) -> Optional[Tupl
     return None
 
 
-def _record_field_names(ci) -> Optional[List[str]]:
-    """constructor parameters = fields, in order, of a private dataclass-like class (annotated names in the class body,
-    no __init__ / __post_init__ / __new__), or of a class whose __init__ stores each parameter under its own name"""
+def _fresh_literal(e: ast.AST) -> bool:
+    """an initial value that does not depend on anything: a constant, an empty container"""
+    if isinstance(e, ast.Constant):
+        return True
+    if isinstance(e, (ast.List, ast.Tuple, ast.Set)) and not e.elts:
+        return True
+    if isinstance(e, ast.Dict) and not e.keys:
+        return True
+    return isinstance(e, ast.Call) and isinstance(e.func, ast.Name) and e.func.id in ("list", "dict", "set", "tuple") and not e.args and not e.keywords
+
+
+def _record_layout(ci) -> Optional[List[Tuple[str, object]]]:
+    """[(field, source)] of a private record-like class: source is the index of the constructor argument stored in the
+    field, or the literal the field starts with.  A dataclass-style body of annotated names (no __init__), or an
+    __init__ that only stores parameters and fresh literals in attributes."""
     if any(k in ci.methods for k in ("__post_init__", "__new__", "__setattr__", "__getattr__", "__getattribute__")):
         return None
     init = ci.methods.get("__init__")
     if init is None:
         if not any(ast.unparse(d).split("(")[0].split(".")[-1] == "dataclass" for d in ci.node.decorator_list):
             return None
-        out = []
+        out: List[Tuple[str, object]] = []
         for st in ci.node.body:
             if isinstance(st, ast.AnnAssign) and isinstance(st.target, ast.Name):
-                out.append(st.target.id)
-            elif isinstance(st, ast.Assign) and len(st.targets) == 1 and isinstance(st.targets[0], ast.Name) and getattr(st, "_was_annotated", False):
-                out.append(st.targets[0].id)
+                if st.value is not None:
+                    return None  # defaults: not modelled
+                out.append((st.target.id, len(out)))
         return out or None
     ps = init.pos_params[1:]
     a = init.node.args
     if a.vararg or a.kwarg or a.kwonlyargs or a.defaults:
         return None
     body = [st for st in init.node.body if not (isinstance(st, ast.Expr) and isinstance(st.value, ast.Constant))]
-    got: Dict[str, str] = {}
+    out = []
+    used = set()
     for st in body:
-        if isinstance(st, ast.Assign) and len(st.targets) == 1 and isinstance(st.targets[0], ast.Attribute) and isinstance(st.targets[0].value, ast.Name) and st.targets[0].value.id == init.pos_params[0] and isinstance(st.value, ast.Name) and st.value.id in ps and st.value.id not in got and st.targets[0].attr not in got.values():
-            got[st.value.id] = st.targets[0].attr  # self._x = x: the field that holds parameter x
+        if not (isinstance(st, ast.Assign) and len(st.targets) == 1 and isinstance(st.targets[0], ast.Attribute) and isinstance(st.targets[0].value, ast.Name) and st.targets[0].value.id == init.pos_params[0]):
+            return None
+        f_ = st.targets[0].attr
+        if f_ in [x[0] for x in out]:
+            return None
+        if isinstance(st.value, ast.Name) and st.value.id in ps and st.value.id not in used:
+            used.add(st.value.id)
+            out.append((f_, ps.index(st.value.id)))  # self._x = x: the field that holds parameter x
+        elif _fresh_literal(st.value):
+            out.append((f_, st.value))
         else:
             return None
-    return [got[p_] for p_ in ps] if set(got) == set(ps) else None
+    return out if used == set(ps) and out else None
+
+
+def _ctor_params(ci) -> Optional[List[str]]:
+    init = ci.methods.get("__init__")
+    if init is not None:
+        return init.pos_params[1:]
+    lay = _record_layout(ci)
+    return [f for f, _s in lay] if lay is not None else None
+
+
+def _record_field_names(ci) -> Optional[List[str]]:
+    lay = _record_layout(ci)
+    return [f for f, _s in lay] if lay is not None else None
 
 
 def _local_record_class(model: Model, fi: FuncInfo, name: str):
@@ -104,20 +138,72 @@ def _local_record_class(model: Model, fi: FuncInfo, name: str):
     return tgt
 
 
+def _expand_record_properties(body: List[ast.stmt], classes: Dict[str, object]) -> Tuple[List[ast.stmt], bool]:
+    n_done = 0
+
+    class _P(ast.NodeTransformer):
+        def visit_Attribute(self, n: ast.Attribute):
+            nonlocal n_done
+            self.generic_visit(n)
+            if isinstance(n.ctx, ast.Load) and isinstance(n.value, ast.Name) and n.value.id in classes:
+                ci = classes[n.value.id]
+                g = ci.methods.get(n.attr)  # type: ignore
+                if g is not None and g.decorators == ["property"] and len(g.pos_params) == 1:
+                    b = [st for st in g.node.body if not (isinstance(st, ast.Expr) and isinstance(st.value, ast.Constant))]
+                    if len(b) == 1 and isinstance(b[0], ast.Return) and b[0].value is not None and not any(isinstance(y, (ast.Lambda, ast.NamedExpr, ast.Await, ast.Yield)) for y in ast.walk(b[0].value)):
+                        # names of the property body other than self must mean the same here: comprehension variables only
+                        bound = {y.id for y in ast.walk(b[0].value) if isinstance(y, ast.Name) and isinstance(y.ctx, ast.Store)}
+                        free = {y.id for y in ast.walk(b[0].value) if isinstance(y, ast.Name) and isinstance(y.ctx, ast.Load)} - bound - {g.pos_params[0]}
+                        import builtins as _b
+
+                        if all(hasattr(_b, f_) for f_ in free):
+                            n_done += 1
+                            return ast.copy_location(_Sub({g.pos_params[0]: ast.Name(id=n.value.id, ctx=ast.Load())}).visit(clone_ast(b[0].value)), n)
+            return n
+
+    out = []
+    for st in body:
+        if any(isinstance(n, ast.Name) and n.id in classes for n in ast.walk(st)):
+            before = n_done
+            st2 = _P().visit(clone_ast(st))
+            if n_done != before:
+                ast.fix_missing_locations(st2)
+                st2._fresh = True  # type: ignore
+                out.append(st2)
+                continue
+        out.append(st)
+    return out, n_done > 0
+
+
 def _split_records(model: Model, fi: FuncInfo, body: List[ast.stmt]) -> Tuple[List[ast.stmt], bool]:
     """x = _Rec(a, b) where x is a local that is only ever read or written field by field (x.f): one local per field.
     The object cannot be observed as a whole, so its fields are variables of the function."""
     changed = False
     cands: Dict[str, Tuple[ast.Assign, List[str]]] = {}
+    layouts: Dict[str, List[Tuple[str, object]]] = {}
+    classes: Dict[str, object] = {}
     for st in body:
         for n in ast.walk(st):
             if isinstance(n, ast.Assign) and len(n.targets) == 1 and isinstance(n.targets[0], ast.Name) and isinstance(n.value, ast.Call) and isinstance(n.value.func, ast.Name):
                 ci = _local_record_class(model, fi, n.targets[0].id)
                 if ci is not None and ci.name == n.value.func.id.split(".")[-1] or (ci is not None):
                     cands[n.targets[0].id] = (n, _record_field_names(ci))  # type: ignore
+                    layouts[n.targets[0].id] = _record_layout(ci)
+                    classes[n.targets[0].id] = ci
     if not cands:
         return body, False
-    from .model import parent as _parent
+    # reads of properties whose body is one `return <expression over self>`: that expression, about the object
+    body, ch_p = _expand_record_properties(body, classes)
+    changed = changed or ch_p
+    if ch_p:
+        for x_ in list(cands):
+            asg_new = [n for st in body for n in ast.walk(st) if isinstance(n, ast.Assign) and len(n.targets) == 1 and isinstance(n.targets[0], ast.Name) and n.targets[0].id == x_ and isinstance(n.value, ast.Call)]
+            if len(asg_new) != 1:
+                del cands[x_]
+            else:
+                cands[x_] = (asg_new[0], cands[x_][1])
+    if not cands:
+        return body, changed
 
     # parents inside the (partly synthetic) body
     par: Dict[int, ast.AST] = {}
@@ -129,8 +215,10 @@ def _split_records(model: Model, fi: FuncInfo, body: List[ast.stmt]) -> Tuple[Li
     for x, (asg, fields) in list(cands.items()):
         ok = True
         call = asg.value
-        if any(isinstance(a, ast.Starred) for a in call.args) or call.keywords or len(call.args) != len(fields):
-            ok = False  # (keyword arguments of package calls were made positional when the model was loaded)
+        n_params = sum(1 for _f, src in layouts[x] if isinstance(src, int))
+        pn = _ctor_params(classes[x])
+        if any(isinstance(a, ast.Starred) for a in call.args) or pn is None or any(k.arg is None or k.arg not in pn[len(call.args):] for k in call.keywords) or len(call.args) + len(call.keywords) != n_params or len({k.arg for k in call.keywords}) != len(call.keywords):
+            ok = False
         n_store = 0
         for st in body:
             for n in ast.walk(st):
@@ -150,7 +238,7 @@ def _split_records(model: Model, fi: FuncInfo, body: List[ast.stmt]) -> Tuple[Li
         if not ok:
             del cands[x]
     if not cands:
-        return body, False
+        return body, changed
 
     class _S(ast.NodeTransformer):
         def visit_Attribute(self, n: ast.Attribute):
@@ -163,10 +251,10 @@ def _split_records(model: Model, fi: FuncInfo, body: List[ast.stmt]) -> Tuple[Li
                 x_ = n.targets[0].id
                 fields_ = cands[x_][1]
                 vals: Dict[str, ast.AST] = {}
-                for f_, a_ in zip(fields_, n.value.args):
-                    vals[f_] = a_
-                for k_ in n.value.keywords:
-                    vals[k_.arg] = k_.value  # type: ignore
+                pn_ = _ctor_params(classes[x_]) or []
+                actual = list(n.value.args) + [next(k.value for k in n.value.keywords if k.arg == p_) for p_ in pn_[len(n.value.args):]]
+                for f_, src in layouts[x_]:
+                    vals[f_] = actual[src] if isinstance(src, int) else clone_ast(src)  # type: ignore
                 tgt = ast.Tuple(elts=[ast.Name(id=f"{x_}__{f_}", ctx=ast.Store()) for f_ in fields_], ctx=ast.Store())
                 val = ast.Tuple(elts=[self.visit(vals[f_]) for f_ in fields_], ctx=ast.Load())
                 if len(fields_) == 1:
@@ -1129,10 +1217,21 @@ def _match_inline_loop(model: Model, fi: FuncInfo, s: ast.stmt) -> Optional[List
                     return lit
         return e
 
+    class _Bound(ast.NodeTransformer):
+        """f(self, a) where f names a method of the class (an entry of a class-level table): self.f(a)"""
+
+        def visit_Call(self, node: ast.Call):
+            self.generic_visit(node)
+            if fi.cls is not None and fi.pos_params and isinstance(node.func, ast.Name) and node.func.id in fi.cls.methods and node.func.id not in fi.params and node.args and isinstance(node.args[0], ast.Name) and node.args[0].id == fi.pos_params[0] and not fi.cls.methods[node.func.id].decorators:
+                return ast.copy_location(ast.Call(func=ast.Attribute(value=node.args[0], attr=node.func.id, ctx=ast.Load()), args=node.args[1:], keywords=node.keywords), node)
+            return node
+
     out: List[ast.stmt] = []
     for k, v in table:
         k, v = const_of(k), const_of(v)
         st = _Sub({kv: k, vv: v}).visit(clone_ast(br))
+        st = _Bound().visit(st)
+        ast.fix_missing_locations(st)
         st._fresh = True  # type: ignore
         out.append(st)
     return out
